@@ -514,7 +514,12 @@ pub fn make_world(plan: &Plan, seed: u64, idx: u64) -> (World, String, Prng) {
     let nparties = if family == "huge" {
         2
     } else if family == "concurrent" {
-        p.range(3, 7) as usize
+        // sometimes more callers than the machine has CPUs
+        if p.chance(1, 4) {
+            p.range(36, 44) as usize
+        } else {
+            p.range(3, 7) as usize
+        }
     } else if family == "big" {
         2
     } else if light {
@@ -544,8 +549,13 @@ pub fn make_world(plan: &Plan, seed: u64, idx: u64) -> (World, String, Prng) {
     let mut concurrent = None;
     if family == "concurrent" {
         // short histories, all at once: the interesting thing is the interleaving
+        let crowd = parties.len() > 30;
         for party in parties.iter_mut() {
             party.steps.truncate(p.range(1, 3) as usize);
+            if crowd {
+                // a crowd: far more callers than CPUs, all doing the same default compilation at once
+                party.steps = vec![simple_step(&fns[0], Opts { register: false, dedup: true })];
+            }
         }
         concurrent = Some(p.next_u64());
     }
